@@ -18,7 +18,7 @@ Everything else — the validator (any function of call ordinal and value), the
 handlers and their order, the history — is universally quantified.
 -/
 import TraitsVerif.Lemmas.AttrMore
-import TraitsVerif.Lemmas.AttrSourceSet
+import TraitsVerif.Lemmas.AttrSourceTrait
 namespace TraitsVerif.Props.C02
 open TraitsVerif TraitsVerif.Model.Attr
 
@@ -105,31 +105,26 @@ theorem C02_getattro_is_source (C : IC) (s : OSt) (dn idn : Bool) (hdn : dn = tr
   Lemmas.AttrSource.has_traits_getattro_is_source C s dn idn hdn
 
 open TraitsVerif.Model.MiniC in
-/-- `setattr_trait`, the two paths on which nobody is told anything — PARTIAL: a
-rejected assignment (the validator's exception, -1, nothing stored, nothing
-called) and `del` of an absent value.  The remaining paths of `setattr_trait`
-(fetch old / compare / store / post_setattr / notify; 246 leaves under the
-present proof method) are covered by `C02_skeleton_pinned` and by the
-correspondence run only. -/
-theorem C02_setattr_trait_silent_paths_are_source_partial (C : IC) (s : OSt) (dn idn : Bool) :
-    (s.slot = none →
-      call C Generated.AttrProg.setattr_trait [.trait, .trait, .self, .name, .null] s dn idn
-        = ofInt (setattrTrait C.E C.t none s))
-    ∧ (∀ (v : Id) (k : Nat) (e : Exc), C.t.validate = some k → v ≠ undef →
-        C.E.validate k s.ctx.nval v = .error e →
-        call C Generated.AttrProg.setattr_trait [.trait, .trait, .self, .name, .obj v] s dn idn
-          = ofInt (setattrTrait C.E C.t (some v) s)) :=
-  ⟨Lemmas.AttrSource.setattr_trait_del_absent C s dn idn,
-   fun v k e h1 h2 h3 => Lemmas.AttrSource.setattr_trait_rejected C s dn idn v k e h1 h2 h3⟩
+/-- `setattrTrait` is the interpretation of the source of `setattr_trait` on EVERY path: delete (absent value,
+muted object, no notifier lists, `getattr` failure, identity comparison, post_setattr, notifiers) and assignment
+(validation or its skipping for Undefined, creation of `__dict__`, the stored value chosen by
+`TRAIT_SETATTR_ORIGINAL_VALUE`, the old value fetched only when somebody will be told — materialising the default
+with its post_setattr —, `changed` seeded from the comparison-mode flag and or-ed with `old != validated value`,
+the store, post_setattr with the value chosen by `TRAIT_POST_SETATTR_ORIGINAL_VALUE`, the notifiers with
+(old, stored value)), every error exit included.  `hdn`: an object without `__dict__` has nothing stored.
+Proved segment by segment (`Lemmas/AttrSourceTrait.lean`: program points 6, 8, 16, 17 with preconditions
+`R6`, `R8`, `R16`, `R17` on an arbitrary machine state; `Lemmas/AttrSourceDel.lean`: the delete block). -/
+theorem C02_setattr_trait_is_source (C : IC) (value : Option Id) (s : OSt) (dn idn : Bool)
+    (hdn : dn = true → s.slot = none) :
+    call C Generated.AttrProg.setattr_trait [.trait, .trait, .self, .name, ofValue value] s dn idn
+      = ofInt (setattrTrait C.E C.t value s) :=
+  Lemmas.AttrSource.setattr_trait_is_source C value s dn idn hdn
 
-/-- Tripwire for the two functions whose translated skeleton is not (fully)
-proved equal to the model: the MiniC terms of `setattr_trait` and
-`call_notifiers` are the ones `Model/SetAttr.lean` was transcribed from (digest
-of the generated term; local renamings and comments do not change it, any change
-of statements, operators, operands, call arguments or their order does). -/
-theorem C02_skeleton_pinned :
-    Generated.AttrProg.setattr_trait_digest = "53c63c1af634cae3c9128c050efc887d"
-    ∧ Generated.AttrProg.call_notifiers_digest = "0f96e1469026ab4f9c706644bf391c67" := by
+/-- TRIPWIRE, not a tie: `call_notifiers` (three loops) is not yet proved equal to `callNotifiers`; the digest of
+its translated term pins the text `Model/SetAttr.lean` was transcribed from, so that any change of its statements,
+operators, operands or their order breaks an obligation. -/
+theorem C02_call_notifiers_skeleton_pinned :
+    Generated.AttrProg.call_notifiers_digest = "0f96e1469026ab4f9c706644bf391c67" := by
   decide
 
 /-! ### Exactly once -/
